@@ -40,7 +40,7 @@ TYPES = [
 ATTRS = [("allocatable", "mdl"), ("pointer", "mdl"), ("target", "mdl"), ("save", "ml"), ("dimension(3)", "mdl"),
          ("dimension(2, n)", "d"), ("dimension(:)", "d"), ("intent(in)", "d"), ("intent(out)", "d"), ("intent(in out)", "d"),
          ("intent(inout)", "d"), ("optional", "d"), ("contiguous", "d"), ("public", "m"), ("private", "m"), ("parameter", "ml")]
-ENTITY = ["plain", "dims", "charlen"]
+ENTITY = ["plain", "dims", "charlen", "second_plain", "second_after_dims", "second_after_link", "dims_over_attr", "charlen_over_sel"]
 DOC = ["none", "before", "after", "trailing", "before_multi", "trailing_then_comment"]
 
 
@@ -81,12 +81,28 @@ def build(ty: int, ks: int, attrs, ctx: str, ent: int, doc: int):
         return None
     if entity == "charlen" and (tname != "character" or ksel != ""):
         return None
+    if ent >= 3 and (doc != 0 or "parameter" in attrs):
+        return None  # the further entity forms are checked without documentation / values
+    if entity == "second_after_dims" and (has_dim_attr or "contiguous" in attrs):
+        return None
+    if entity == "second_after_link" and "pointer" not in attrs:
+        return None
+    if entity == "dims_over_attr" and not ("dimension(3)" in attrs and "contiguous" not in attrs):
+        return None
+    if entity == "charlen_over_sel" and not (tname == "character" and ksel.startswith("(len=") and ksel[5:6].isdigit()):
+        return None
     if "contiguous" in attrs and not has_dim_attr:
         attrs.append("dimension(:)")
     if "parameter" in attrs and (tname in ("type", "class") or "(len=*)" in ksel or "*(*)" in ksel or has_dim_attr or entity == "dims"):
         return None
     name = "var_x"
-    ent_text = name + ("(5)" if entity == "dims" else "*20" if entity == "charlen" else "")
+    ent_text = name + ("(5)" if entity in ("dims", "dims_over_attr") else "*20" if entity in ("charlen", "charlen_over_sel") else "")
+    if entity == "second_plain":
+        ent_text = "first_e, " + name
+    elif entity == "second_after_dims":
+        ent_text = "first_e(7), " + name
+    elif entity == "second_after_link":
+        ent_text = "first_e => tgt_x, " + name
     value = None
     if "parameter" in attrs:
         values = {"integer": ["42", "n*2 - 1", "merge(1, 2, n == wp)"], "real": ["1.5", "real(n)/2.0"],
@@ -112,7 +128,7 @@ def build(ty: int, ks: int, attrs, ctx: str, ent: int, doc: int):
     ind = "    " if ctx != "m" else "  "
     dl = [ind + x for x in pre] + [ind + decl + trail] + [ind + x for x in post]
     other_doc = ["  !> doc of other", "  integer :: other"]
-    lines = ["module hm", "  integer, parameter :: wp = 8, n = 4", "  type :: pt", "    integer :: c", "  end type pt"]
+    lines = ["module hm", "  integer, parameter :: wp = 8, n = 4", "  real(8), target :: tgt_x(2)", "  type :: pt", "    integer :: c", "  end type pt"]
     if ctx == "m":
         lines += other_doc + dl + ["  real :: after_it !< doc of after_it", "contains", "  subroutine s(arg)", "    integer :: arg", "    arg = 1", "  end subroutine s"]
         use_line = None
@@ -127,7 +143,12 @@ def build(ty: int, ks: int, attrs, ctx: str, ent: int, doc: int):
     exp_attrs = {norm(a) for a in attrs}
     if entity == "dims":
         exp_attrs.add("dimension(5)")
+    if entity == "dims_over_attr":  # what is given with the entity replaces the attribute of the statement
+        exp_attrs.discard("dimension(3)")
+        exp_attrs.add("dimension(5)")
     exp_type = norm(tname + ksel + ("*20" if entity == "charlen" else ""))
+    if entity == "charlen_over_sel":
+        exp_type = norm(tname + "*20")
     return {f"{R}/hm.f90": "\n".join(lines) + "\n"}, dline, lines[dline].index(name), dict(type=exp_type, attrs=exp_attrs, name=name, value=value, doc=docs), lines
 
 
@@ -201,7 +222,7 @@ def decls(ty: int, ks: int, ctx: int) -> bool:
         if THOROUGH:
             combos += [c for c in itertools.combinations(names, 3)]
         for attrs in combos:
-            for ent in range(3):
+            for ent in range(len(ENTITY)):
                 for doc in (range(len(DOC)) if (THOROUGH or len(attrs) < 2) else (0, 3)):
                     msg = check_decl(ty, ks, attrs, "mdl"[ctx], ent, doc)
                     if msg:
@@ -241,6 +262,10 @@ CALLS = [
     ("call resize(max(1.0, 2.0), min(w, 3.0), ", [("2.0),", 1), ("3.0), ", 2)]),
     ("call resize(w, (w + 1.0) * 2, label = 'q')", [("w, ", 1), ("label = ", 2)]),
     ("call resize(width=abs(w), depth=sqrt(w*w), ", [("depth=", 1), ("w*w), ", 2)]),
+    ("call resize(w, width == 1.0, 'a,b', ", [("width == 1.0,", 2), ("'a,b', ", 3)]),       # a comparison is not a keyword; a comma inside a literal
+    ("call resize(w, 2.0, flag=w>=1.0, label='k')", [("flag=w>=", 3), ("label=", 2)]),  # keyword argument holding a comparison
+    ("call resize(w, 2.0, flag = w /= 1.0, ", [("w /= ", 3)]),
+    ("end_flag = 1; call resize(1.0, 2.0, ", [("1.0, ", 1), ("2.0, ", 2)]),            # a line that only STARTS with the letters 'end'
 ]
 
 
